@@ -26,3 +26,5 @@ def run_store_kmer_lemmas(F, rep, rule):
             kmer_positions=(lambda K: range(0, 70)) if rep.tier == "thorough" else (lambda K: range(0, 70) if K > 32 else (0, 1, 17, 31, 32, 33, 63)))
     rep.run(lemmas.slice_getkmer_lemmas, F, rep, rule, quick=(rep.tier != "thorough"))
     rep.run(dt_seq.slice_view_tables, F, rep, rule)
+    # ... and on the byte containers (reads handed over as plain base bytes): `get_kmer` there is the trait's `from_bytes`
+    rep.run(lemmas.byte_container_lemmas, F, rep, "L-bytes")
